@@ -27,7 +27,7 @@ REG = {
          "equational laws proved of the evaluator + parser lemma + correspondence + independent skeleton interpreter"),
  "C08": ("Props/C08_frames.v: frames_balanced (every evaluator function leaves the stack of frame names as it found it for every non-panic outcome), call_balanced, match_balanced, history_independent, sequential_calls_do_not_accumulate; C20_depth depth_invariant; tied to Go by call/match programs and long histories with the frame depth read by reflection.",
          "invariant proof over the evaluator monad + correspondence incl. frame depth + long-history probes"),
- "C09": ("Props/C09_reads.v: read_pure / document_unchanged / root_json_unchanged (a pure expression leaves every documented location and the JSON output unchanged); Props/C09_stores.v: copy_value_table, set_member_fill_shape, set_member_object, element stores shared; Props/C09_creates.v: assign_creates_member (missing member, or a member named like a prototype method), assign_creates_intermediate_object, assign_creates_intermediate_array (padded with null), each with exact frame conditions; the sharing clause for length-changing operations is REFUTED in the faithful slice model (array_length_change_not_shared_refuted: open finding F-C09-alias, reported as KNOWN-FINDING); tied to Go by path-assignment programs with a Python reference.",
+ "C09": ("Props/C09_reads.v: read_pure / document_unchanged / root_json_unchanged (a pure expression leaves every documented location and the JSON output unchanged); Props/C09_stores.v: copy_value_table, set_member_fill_shape, set_member_object, element stores shared; Props/C09_creates.v: assign_creates_member (missing member, or a member named like a prototype method), assign_creates_intermediate_object, assign_creates_intermediate_array (padded with null), each with exact frame conditions; Props/C09_incdec.v: incdec_plain / incdec_missing_member (++ and -- store old+-1 and yield the old or the new value in a fresh cell; on a missing member they create it); the sharing clause for length-changing operations is REFUTED in the faithful slice model (array_length_change_not_shared_refuted: open finding F-C09-alias, reported as KNOWN-FINDING); tied to Go by path-assignment programs with a Python reference.",
          "frame/purity proofs over the heap model + refutation witness + correspondence + independent path-store oracle"),
  "C10": ("Props/C10_determinism.v: the run is a function of program, selectors and input only (no process-global state in the model: prototypes are immutable tables), objects are canonical (assoc_set_commute, object_order_canonical: printing and for-in cannot depend on insertion order); tied to Go by repeated in-process and fresh-process runs compared byte for byte.",
          "canonical-form proofs + repeated-run comparison on the implementation"),
